@@ -44,6 +44,12 @@ def conditions(tier, seed):
                                 func=('check_unary' if op in ('add', 'discard', 'remove') else 'check_iter' if op.startswith('iter') else 'check_nullary'),
                                 bound='as the integer conditions, element universe %s (None / str / tuple elements)' % el,
                                 case_split=['cx', 'k', 'mask'], twin=False))
+    for el in ('none', 'mixed'):
+        for op in ('pop_last', 'pop_first', 'add', 'discard'):
+            out.append(Cond('step_%s_QuerySet_%s' % (el, op), 'c17_step.py', dict(op=op, cls='QuerySet', U=U, maxn=maxn, maxm=maxm, elems=el), timeout=t,
+                            func=('check_unary' if op in ('add', 'discard') else 'check_nullary'),
+                            bound='QuerySet (first / last observed) over the element universe %s (falsy elements: None, 0, empty string, empty tuple)' % el,
+                            case_split=['cx', 'k'], twin=False))
     otypes = ['OrderedSet', 'list', 'tuple', 'self'] if tier == 'quick' else \
         ['OrderedSet', 'list', 'tuple', 'QuerySet', 'generator', 'self']
     for op in BINARY:
